@@ -1020,6 +1020,79 @@ func c07BatchDupsHeld(b Bounds) *Scenario {
 	}
 }
 
+// c07Notes: notifications carry no id, so they reserve nothing and are never duplicates of each other:
+// two in one batch, two spelled with an explicit null id (in one batch and one after the other), and
+// CancelRequest of ids no call carries ("" and "null") while a notification handler is running.
+func c07Notes(b Bounds) *Scenario {
+	msgs := []string{
+		`[{"jsonrpc":"2.0","method":"fastn0"},{"jsonrpc":"2.0","method":"fastn1"}]`,
+		`[{"jsonrpc":"2.0","id":null,"method":"fastn2"},{"jsonrpc":"2.0","id":null,"method":"fastn3"}]`,
+		`{"jsonrpc":"2.0","id":null,"method":"fastn4"}`,
+		`{"jsonrpc":"2.0","id":null,"method":"fastn5"}`,
+		`{"jsonrpc":"2.0","method":"slown6"}`,
+	}
+	return &Scenario{
+		Name:   "notifications (plain and with a null id, in one batch and in sequence) reserve nothing; CancelRequest(\"\") and (\"null\") reach no handler",
+		Params: map[string]any{"messages": msgs},
+		Bounds: b,
+		New: func() *Instance {
+			h := &c07H{gates: NewGates(), running: map[string]string{}}
+			body := func() {
+				lib, peer, _ := NewPipe(PipeOpts{Name: "srv", CloseUnblocksRecv: true})
+				srv := jrpc2.NewServer(c07Assigner{h.handler()}, &jrpc2.ServerOptions{Concurrency: 4})
+				srv.Start(lib)
+				for _, m := range msgs {
+					peer.Send([]byte(m))
+					vs.AwaitQuiescence()
+					keys, ok := privKeys(srv, "used")
+					vs.Note("after", m, strings.Join(keys, ","), fmt.Sprint(ok))
+				}
+				// slown6 is parked in its handler now
+				srv.CancelRequest("")
+				srv.CancelRequest("null")
+				vs.AwaitQuiescence()
+				vs.Note("cancelled-nothing")
+				h.gates.Open("slown6")
+				vs.AwaitQuiescence()
+				peer.Close()
+				srv.WaitStatus()
+			}
+			check := func(x *vs.Exec) []Viol {
+				v := genericRules(x, nil)
+				if x.Outcome != "ok" {
+					return v
+				}
+				Hit("C07.R1")
+				for _, o := range outEvents(x, "srv") {
+					v = append(v, Viol{"C07.R1", "notifications must not be answered, let alone refused as duplicates: the server sent " + o.Raw})
+				}
+				entered := map[string]bool{}
+				for _, e := range x.Log {
+					switch e.K {
+					case "h_enter":
+						entered[e.Arg(0)] = true
+					case "after":
+						if e.Arg(2) == "true" && e.Arg(1) != "" {
+							v = append(v, Viol{"C07.R5", "after " + e.Arg(0) + " the reserved ids are {" + e.Arg(1) + "}: notifications reserve no id"})
+						}
+					case "h_exit":
+						if e.Arg(0) == "slown6" && e.Arg(3) != "-" {
+							v = append(v, Viol{"C07.R3", "CancelRequest of an id no call carries cancelled the running notification handler: context " + e.Arg(3)})
+						}
+					}
+				}
+				for _, m := range []string{"fastn0", "fastn1", "fastn2", "fastn3", "fastn4", "fastn5", "slown6"} {
+					if !entered[m] {
+						v = append(v, Viol{"C07.R1", "the handler of notification " + m + " never ran"})
+					}
+				}
+				return v
+			}
+			return &Instance{Body: body, Check: check}
+		},
+	}
+}
+
 // c07LostReply: the reply to a call (or to a batch) cannot be sent - the channel refuses that one
 // record and stays up, the server keeps running. The calls are over all the same: their ids must be
 // free again, and their contexts ended.
@@ -1098,6 +1171,7 @@ func c07Scenarios(tier string) []*Scenario {
 	var out []*Scenario
 	out = append(out, c07LostReply(false, Bounds{1, 1, 0}), c07LostReply(true, Bounds{1, 1, 0}))
 	out = append(out, c07BatchDupsHeld(Bounds{1, 1, 0}))
+	out = append(out, c07Notes(Bounds{1, 1, 0}))
 	var firsts []c07Op
 	for _, id := range []string{"1"} { // ids are symmetric: the first operation uses id 1
 		for _, m := range c07Methods {
